@@ -77,6 +77,8 @@ fn reg_tok(m: &RegMode) -> &'static str {
         RegMode::BadSig => "badsig",
         // (for the client a receipt for somebody else is a receipt that does not verify for it)
         RegMode::OtherUser => "badsig",
+        // (for the client: more slots, an expiry that does not move forward)
+        RegMode::LowerExpiry => "sameexpiry",
         RegMode::NonJson => "nonjson",
         RegMode::ApiError => "apierror",
     }
@@ -201,7 +203,7 @@ fn monitors(w: &mut PWorld, g: &mut Ghost, ev: &PEv, reply: &str, view: &View, t
     // ---- C14: a register reply that is not a receipt of the tower for this client records nothing
     if let PEv::Register(t) = ev {
         let (mode, down) = { let st = w.towers[*t as usize].st.lock().unwrap(); (st.reg.clone(), st.down) };
-        if !down && matches!(mode, RegMode::BadSig | RegMode::OtherUser | RegMode::NonJson | RegMode::ApiError) {
+        if !down && matches!(mode, RegMode::BadSig | RegMode::OtherUser | RegMode::LowerExpiry | RegMode::NonJson | RegMode::ApiError) {
             let new: Vec<_> = view.rows.regs.iter().filter(|r| r.0 == *t && !g.regs.contains(*r)).collect();
             if reply == "ok" || !new.is_empty() {
                 out.push(Rec::Fail("C14", "bad_registration_recorded".into(), format!("tower {t} answered `register` with {mode:?} (not a receipt it signed for this client) but the command answered `{reply}` and the file gained {new:?}")));
@@ -735,6 +737,8 @@ pub fn corpus() -> Vec<Scenario> {
         sc("kill-with-pending", vec![Register(0), Register(1), Down(0, true), Notify(0), Notify(1), Restart, Down(0, false), Restart, Notify(2)]),
         // a receipt the tower signed for another user (its reply names that user): not a subscription of this client
         sc("register-reply-for-another-user", vec![Register(0), Register(1), PEv::Reg(0, RegMode::OtherUser), Register(0), Notify(0), Add(0, SubErrUntilReg), Notify(1), Retry(0), Restart, PEv::Reg(0, RegMode::Accept), Register(0), Notify(2)]),
+        // a renewal whose (properly signed) receipt ends earlier than the subscription the client already holds
+        sc("register-reply-with-a-lower-expiry", vec![Register(0), Register(1), PEv::Reg(0, RegMode::Accept), Register(0), PEv::Reg(0, RegMode::LowerExpiry), Register(0), Notify(0), Restart, PEv::Reg(0, RegMode::Accept), Register(0), Notify(1)]),
         sc("register-replies", vec![PEv::Reg(0, RegMode::BadSig), Register(0), PEv::Reg(0, RegMode::NonJson), Register(0), PEv::Reg(0, RegMode::ApiError), Register(0), PEv::Reg(0, RegMode::Accept), Register(0), PEv::Reg(0, RegMode::Same), Register(0), PEv::Reg(0, RegMode::SameExpiry), Register(0), Down(0, true), Register(0), Notify(0)]),
         Scenario { name: "auto-retry-delivers".into(), towers: 1, opts: (2, 3, 1), events: vec![Register(0), Down(0, true), Notify(0), Notify(1), Down(0, false), AwaitDelivered(0, 14)] },
         // a revocation that arrives while the retrier idles is only in the file: the automatic wake-up must pick it up
@@ -752,7 +756,7 @@ fn random_scenario(rng: &mut Rng, i: usize) -> Scenario {
     }
     let n = 5 + rng.below(6);
     let modes = [AddMode::Accept, AddMode::Accept, AddMode::SubErr, AddMode::SubErrUntilReg, AddMode::Reject, AddMode::ApiErr(32), AddMode::ApiErr(36), AddMode::ApiErr(65), AddMode::ApiErr(255), AddMode::ApiErr(1), AddMode::ApiErr(33), AddMode::NonJson, AddMode::WrongShape, AddMode::Empty, AddMode::BadSig, AddMode::MalformedSig];
-    let regs = [RegMode::Accept, RegMode::Accept, RegMode::Same, RegMode::SameExpiry, RegMode::BadSig, RegMode::OtherUser, RegMode::NonJson, RegMode::ApiError];
+    let regs = [RegMode::Accept, RegMode::Accept, RegMode::Same, RegMode::SameExpiry, RegMode::BadSig, RegMode::OtherUser, RegMode::LowerExpiry, RegMode::NonJson, RegMode::ApiError];
     for _ in 0..n {
         let t = rng.below(towers as u64) as u32;
         match rng.weighted(&[30, 12, 6, 8, 8, 10, 3, 5, 4]) {
